@@ -22,7 +22,7 @@ RULE = ("hostile archives from the reference writer: entries (name x kind) with 
         "entry. Oracle: (1) snapshot (type, mode, size, mtime, link text, SHA-256) of the scratch area outside the destination is unchanged; "
         "(2) no audit event of a mutating call (open-for-write, mkdir, symlink, link, rename, remove, rmdir, chmod, chown, utime, truncate, shutil.*) "
         "resolves outside realpath(destination). Raising is always allowed. Cell = shape signature of the archive (kinds + name/target classes) + destination mode.")
-EXHAUSTIVE = {"quick": "all archives of <= 2 entries over the full shape alphabet (19 names x (file, dir, 13 link targets)); all 3-entry archives over the reduced alphabet",
+EXHAUSTIVE = {"quick": "all archives of <= 2 entries over the full shape alphabet (19 names x (file, dir, 13 link targets)); all 3-entry archives over the reduced alphabet; all 4-entry link chains (3 links over {a,b,a/b} x {., .., a/.., b/..} + one entry created through them)",
               "thorough": "as quick + all 3-entry archives over a medium alphabet, all orders"}
 ASSUMPTIONS = ["a link created inside the destination whose text points outside is not by itself a violation; it becomes one when a later operation goes through it",
                "every escape the generator can express lands inside the scratch root (destination nested 6 levels deep, absolute decoys inside the scratch root)"]
@@ -60,6 +60,11 @@ def cases(rng, tier):
     add([[a, b] for a in full for b in full], "2-entry")
     red = shapes(NAMES_R, TARGETS_R)
     add([list(t) for t in itertools.product(red, repeat=3)], "3-entry-reduced")
+    # link chains: three link entries followed by an entry created through them (a dangling link may be
+    # given a new meaning by a later link: 'b -> a/..' then 'a -> .')
+    lk = [[n, "L", t] for n in ("a", "b", "a/b") for t in (".", "..", "a/..", "b/..")]
+    last = [[n, k, t] for n in ("a/b/c", "b/c", "a/c") for (k, t) in (("F", None), ("L", "{D}/a"), ("L", ".."))]
+    add([[x, y, z, w] for x in lk for y in lk for z in lk for w in last], "4-entry-link-chains")
     if tier == "thorough":
         med = shapes(NAMES_M, TARGETS_M)
         add([list(t) for t in itertools.product(med, repeat=3)], "3-entry-medium")
